@@ -362,6 +362,29 @@ func dotNorm(segs []string, encoded bool) []string {
 	return out
 }
 
+// nestEsc: the character escaped d levels deep (%61, %2561, %252561, ...)
+func nestEsc(ch byte, d int) string {
+	if d == 0 {
+		return string(ch)
+	}
+	return "%" + strings.Repeat("25", d-1) + fmt.Sprintf("%02X", ch)
+}
+
+// deepSpellings: members of the web-URL grammar whose unreserved characters are escaped d levels deep in every component
+func deepSpelling(d int, k int) string {
+	switch k % 4 {
+	case 0:
+		return "http://example.com/x" + nestEsc('a', d) + "y"
+	case 1:
+		return "https://h/p?" + nestEsc('k', d) + "=" + nestEsc('v', d) + "&b=1"
+	case 2:
+		return "http://user@h/#" + nestEsc('f', d) + "rag" // the grammar allows escape spellings in path, query and fragment only
+	}
+	return "http://www.example/" + nestEsc('-', d) + "/" + nestEsc('~', d) + "?" + nestEsc('q', d)
+}
+
+var deepDepths = []int{4, 5, 6, 7, 8, 9, 10, 11, 12, 13, 15, 16, 17, 20, 24, 31, 32, 33, 48, 64, 65, 100}
+
 func jsonHex(l []string) string {
 	b, _ := json.Marshal(hxAll(l))
 	return string(b)
@@ -568,6 +591,15 @@ func init() {
 				in := w.spell(r, spellOpts{caseScheme: true, caseHost: true, defaultPort: true, dotSeg: true, tabNl: r.Chance(1, 4), ws: r.Chance(1, 4), pct: true, depth: 3, emptyFrag: true}, r.Next())
 				idem(d, p, in, "web-url-grammar", i)
 			})
+			// escapes nested arbitrarily deep (the decoding loop must run to its fixed point, however many rounds that takes)
+			var deepProfs []*Prof
+			deepProfs = append(deepProfs, exp...)
+			deepProfs = append(deepProfs, profFromDesc("repeated"), profFromDesc("repeated+sortKeys"), profFromDesc("repeated+rmFrag+rmUser"))
+			c.Pool.Run(len(deepDepths)*4*len(deepProfs), func(d *Driver, i int) {
+				p := deepProfs[i%len(deepProfs)]
+				j := i / len(deepProfs)
+				idem(d, p, deepSpelling(deepDepths[j/4], j%4), "deep-nesting", i)
+			})
 		},
 		rule: "option-composed profiles (WhatWg, WhatWgSortQuery, no options, 24 random subsets of the six canonicalizer options) on arbitrary generated strings and grammar URLs; GoogleSafeBrowsing and Semantic on members of the ordinary-web-URL grammar in random spellings (literal / escaped / nested-escaped unreserved characters, case, ports, dot segments, whitespace); both passes are compared with the model and the second pass must reproduce every observable of the first",
 	}
@@ -617,6 +649,18 @@ func init() {
 			c.Pool.Run(15000*c.Scale, func(d *Driver, i int) {
 				r := rng.Fork(2000000 + i)
 				pair(d, fullProfs[r.Intn(len(fullProfs))], full, "full", i, r)
+			})
+			// an escape nested d levels deep against the literal spelling, for every depth
+			c.Pool.Run(len(deepDepths)*4*len(fullProfs), func(d *Driver, i int) {
+				p := fullProfs[i%len(fullProfs)]
+				j := i / len(fullProfs)
+				x, y := deepSpelling(deepDepths[j/4], j%4), deepSpelling(0, j%4)
+				ox := c.cmpProf(d, p, nil, x, allButVerrs, "deep-nesting", i)
+				oy := c.cmpProf(d, p, nil, y, allButVerrs, "deep-nesting", i)
+				if diff := obsEq(ox, oy, []int{fHref}); diff != "" {
+					c.Report(Finding{Class: "violation", What: fmt.Sprintf("two spellings of one URL canonicalize differently: %q -> %s ; %q -> %s", x, ox.Fields0(fHref)+ox.Err, y, oy.Fields0(fHref)+oy.Err),
+						Case: Case{Kind: "pair", Cfg: p.Desc, Input: x, Family: "deep-nesting", Index: i, Extra: map[string]string{"other": y, "hrefX": ox.Fields0(fHref), "hrefY": oy.Fields0(fHref)}}})
+				}
 			})
 		},
 		rule: "members of the ordinary-web-URL grammar, each written in two independent random spellings: standard-level variations (scheme/host case, explicit default or empty port, inserted . and x/.. segments also as %2e, embedded tab/newline, surrounding whitespace) under the four predefined profiles, the empty profile and 12 random option compositions; all variations (plus hex case, optional and nested escapes of unreserved characters, empty fragment) under GoogleSafeBrowsing, Semantic and 14 compositions containing repeated percent-decoding; the two canonical strings must be equal; every parse is also compared with the model",
